@@ -64,4 +64,51 @@ example : let one : FTok := ⟨0x3ff0000000000000, [1], 0⟩
     let h : Hist := ⟨one, nhalf, [⟨nhalf, half, true, true, one⟩, ⟨half, one, false, true, zero⟩, ⟨one, inf, false, true, half⟩]⟩
     pHist parseF (marshalHistogram h) = some (origHist h, []) := by decide +kernel
 
+/-- Full statement of the envelope clause: every result type the API produces decodes to the original
+    value.  Proved below for vectors (`value_envelope_roundtrip_partial`).  Missing: the matrix case
+    (same lemmas, the two optional `values`/`histograms` lists are not yet composed) and the
+    scalar/string cases, whose timestamp goes through `float64(T)/1000` and encoding/json and is
+    only recoverable for |T| ≤ 2^43·1000 (see `scalar_timestamp_precision_witness`, finding F27);
+    matrix, scalar and string are covered by the correspondence suite and the judge only. -/
+def value_envelope_roundtrip_full : Prop :=
+  ∀ (pf : Bytes → Option FVal),
+    (∀ v : List Sample, (∀ s ∈ v, SampleOK pf s) →
+      pEnvelope "vector" (pVector pf) (envelope "vector" (marshalVector v)) = some (v.map origSample)) ∧
+    (∀ m : List Series,
+      (∀ s ∈ m, (∀ p ∈ s.floats, TsOK p.1 ∧ FloatTextOK pf p.2) ∧ (∀ p ∈ s.hists, TsOK p.1 ∧ HistOK pf p.2)) →
+      pEnvelope "matrix" (pMatrix pf) (envelope "matrix" (marshalMatrix m)) =
+        some (m.map fun s => ⟨s.metric, s.floats.map (fun p => (.exact p.1, .f (origF p.2))),
+                              s.hists.map (fun p => (.exact p.1, .h (origHist p.2)))⟩))
+
+/-- Vectors (instant query results): for every list of samples — any label sets (arbitrary byte
+    strings), any timestamps except MinInt64, float or histogram values satisfying the trusted
+    `strconv` hypothesis — decoding the response the codec writes gives back every sample: the same
+    label pairs in order, the exact millisecond timestamp, the same float or histogram. -/
+theorem value_envelope_roundtrip_partial (pf : Bytes → Option FVal) (v : List Sample)
+    (h : ∀ s ∈ v, SampleOK pf s) :
+    pEnvelope "vector" (pVector pf) (envelope "vector" (marshalVector v)) = some (v.map origSample) :=
+  pEnvelope_envelope "vector" (pVector pf) (marshalVector v) _ (fun rest => pVector_marshalVector pf v rest h)
+
+/-- the hypotheses are satisfiable with the executable `parseF`, and the decoder really runs:
+    a float sample with an escaped label value at a negative timestamp, and a NaN sample -/
+example : let one : FTok := ⟨0x3ff0000000000000, [1], 0⟩
+    let nan : FTok := ⟨0x7ff8000000000001, [], 0⟩
+    let v : List Sample := [⟨[(kw "job", kw "a\"b\n<")], -1001, .f one⟩, ⟨[], 9223372036854775807, .f nan⟩]
+    pEnvelope "vector" (pVector parseF) (envelope "vector" (marshalVector v)) = some (v.map origSample) := by
+  decide +kernel
+
+/-- One sample inside any context: labels, timestamp and value are recovered (used for every element
+    of a vector; the same lemma serves `[ts,value]` points of a matrix). -/
+theorem sample_roundtrip (pf : Bytes → Option FVal) (s : Sample) (rest : Bytes) (h : SampleOK pf s) :
+    pSample pf (marshalSample s ++ rest) = some (origSample s, rest) :=
+  pSample_marshalSample pf s rest h
+
+/-- F27: scalar and string results write `float64(T)/1000`.  Two different millisecond timestamps just
+    above 2^43·1000 are mapped to the same float — hence to the same JSON text — so no decoder can
+    recover the millisecond there. -/
+theorem scalar_timestamp_precision_witness :
+    tsFloatBits 8796093022208001 = tsFloatBits 8796093022208002 ∧
+    tsFloatBits 9007199254741001 = tsFloatBits 9007199254741000 := by
+  constructor <;> decide +kernel
+
 end Prom.C51
